@@ -752,7 +752,62 @@ def trap_rule(run, f, rid_msg, rid_install):
                 run.paths(rid_msg, CO + "::trap_handler/message", b.loc(), n_ex, 0, n_und)
                 if n_und:
                     why.append("on %d path(s) through stack_ptr_in_bounds its answer could not be read off the path: the message chosen there was not judged" % n_und)
-            for c in ([] if direct else cl):
+            # (b) the message chosen in the closure handed to the redirect, on what it captured: two stages composed.
+            #     Stage 1, this body: along each path to the closure's construction, the in-bounds answer and what the
+            #     captured value is (the answer itself, or a constant / enum variant chosen on it).  Stage 2, the closure with
+            #     its helpers spliced in: along each path, what it tests about its capture and which text it loads.
+            composed = False
+            if not direct and len(uib) == 1:
+                from analysis.table import value_on_path as _vop
+                aggs = [(blk["id"], s_) for blk in ub.blocks for s_ in blk["stmts"] if s_["k"] == "assign" and s_["rhs"]["k"] == "agg" and "closure" in s_["rhs"] and len(s_["rhs"]["ops"]) == 1]
+                cbody = [c for c in cl if aggs and c.npath == norm(aggs[0][1]["rhs"]["closure"])]
+                if len(aggs) == 1 and len(cbody) == 1 and cbody[0].argc == 1:
+                    ab, as_ = aggs[0]
+                    tags = {True: set(), False: set()}
+                    und = 0
+                    for (pth, _c, sv) in _PW(ub).walk(0, lambda bid, t: ("agg",) if bid == ab else None):
+                        if sv[0] != "agg":
+                            continue
+                        val = _oop(ub, udu, pth, uib[0][0])
+                        cap = _vop(ub, pth, local=as_["rhs"]["ops"][0]["p"]["l"])
+                        if val is None or not cap:
+                            und += 1
+                        elif cap[0] == "agg":
+                            tags[val].add(("variant", cap[2]))
+                        elif cap[0] == "const":
+                            tags[val].add(("const", str(cap[1])))
+                        elif cap[0] == "call" and norm(cap[1] or "").endswith("::stack_ptr_in_bounds"):
+                            tags[val].add(("bool", val))
+                        else:
+                            und += 1
+                    uc = inl(f, cbody[0])
+                    cpaths = []
+                    for (pth, conds, sv) in _PW(uc).walk(0, lambda bid, t: ("return",) if t["k"] == "return" else None):
+                        if sv[0] != "return":
+                            continue
+                        m_ = None
+                        for x in pth:
+                            for s_ in uc.blocks[x]["stmts"]:
+                                if s_["k"] == "assign" and s_["rhs"]["k"] == "use" and s_["rhs"]["a"]["k"] == "const" and isinstance(s_["rhs"]["a"].get("dbg"), str) and ("invalid memory reference" in s_["rhs"]["a"]["dbg"] or "stack overflow" in s_["rhs"]["a"]["dbg"]):
+                                    m_ = s_["rhs"]["a"]["dbg"]
+                        cpaths.append((conds, m_))
+
+                    def consistent(tag, conds):
+                        for cd in conds:
+                            if cd[0] == "variant" and tag[0] == "variant" and tag[1] not in cd[2]:
+                                return False
+                            if cd[0] == "bool" and tag[0] == "bool" and cd[2] != tag[1]:
+                                return False
+                            if cd[0] == "bool" and tag[0] == "const" and cd[2] != (tag[1] not in ("0", "false")):
+                                return False
+                        return True
+                    res = {}
+                    for val in (True, False):
+                        res[val] = {m_ for tg in tags[val] for (conds, m_) in cpaths if consistent(tg, conds)}
+                    if not und and all(tags[v] for v in (True, False)) and all(len(res[v]) == 1 and None not in res[v] for v in (True, False)):
+                        composed = True
+                        msgs["other"], msgs["0"] = next(iter(res[True])), next(iter(res[False]))
+            for c in ([] if (direct or composed) else cl):
                 d2 = DefUse(c)
                 for blk in c.blocks:
                     if blk["term"]["k"] == "switch":
@@ -767,7 +822,7 @@ def trap_rule(run, f, rid_msg, rid_install):
             if not (t_msg and "invalid memory reference" in t_msg and f_msg and "stack overflow" in f_msg):
                 why.append("in-bounds must map to \"invalid memory reference\" and out-of-bounds to \"stack overflow\" (found true->%s false->%s)" % (t_msg, f_msg))
             # the captured flag is the result of stack_ptr_in_bounds
-            for blk in ([] if direct else b.blocks):
+            for blk in ([] if (direct or composed) else b.blocks):
                 for i, s in enumerate(blk["stmts"]):
                     if s["k"] == "assign" and s["rhs"]["k"] == "agg" and "closure" in s["rhs"]:
                         for o in s["rhs"]["ops"]:
